@@ -53,6 +53,7 @@ def metric_cases(draw, tier):
         yh = vec(draw, n, k, True, integral)
     return {'kind': 'metric', 'y': y, 'yh': yh, 'rel': rel, 'k': k, 'integral': integral,
             'layout': draw(st.sampled_from(['C', 'C', 'strided'])), 'int64': integral and draw(st.booleans()),
+            'int64_y_only': integral and draw(st.booleans()),
             'eps': draw(st.sampled_from([None, None, 1e-8, 0.5]))}
 
 
@@ -112,14 +113,14 @@ def exact_constant(vals):
 def oracle_metric(case, rec):
     L = lib.lib()
     m = L.metrics
-    y = layout(case['y'], case['layout'], case['int64'])
-    yh = layout(case['yh'], case['layout'], case['int64'])
+    y = layout(case['y'], case['layout'], case['int64'] or case.get('int64_y_only', False))
+    yh = layout(case['yh'], case['layout'], case['int64'] and not case.get('int64_y_only', False))
     n = len(y)
     eps = case['eps']
     e = EPS_DEFAULT if eps is None else eps
     yl, yhl = [float(v) for v in y], [float(v) for v in yh]
     R = refs(yl, yhl, e)
-    rec.tag('rel:' + case['rel'], 'layout:%s%s' % (case['layout'], '/int64' if case['int64'] else ''), 'eps:%r' % eps)
+    rec.tag('rel:' + case['rel'], 'layout:%s/%s/%s' % (case['layout'], y.dtype.name, yh.dtype.name), 'eps:%r' % eps)
     scale2 = max(max(abs(v) for v in yl + yhl), 1e-300) ** 2
 
     def call(f, *a):
@@ -194,7 +195,10 @@ def pearson_r2(xs, ys):
     sxy = sum((a - mx) * (b - my) for a, b in zip(X, Y))
     if sxx == 0 or syy == 0:
         return None, False
-    well = float(syy) >= 1e-6 * float(sum(b * b for b in Y)) and float(sxx) >= 1e-6 * float(sum(a * a for a in X))
+    # Pearson's r is translation invariant and np.corrcoef centres the data first, so large common
+    # offsets (time stamps, counters) are fine; only a spread near the rounding level of the values
+    # (relative spread < 1e-7 of the magnitude) makes the centred data meaningless
+    well = float(syy) >= 1e-14 * float(sum(b * b for b in Y)) and float(sxx) >= 1e-14 * float(sum(a * a for a in X))
     return float(sxy * sxy / (sxx * syy)), well
 
 
